@@ -1,2 +1,9 @@
-(* C08 *)
-From WaxModel Require Import Base.
+(* C08 -- Partitioning preserves meaning. *)
+From WaxModel Require Import Base Token Parse Query.
+From WaxProofs Require Import ParseFacts.
+
+(* the postfix expression is the suffix of the expression at the byte offset of the popped tokens:
+   dropping the bytes of a leading run of characters leaves exactly the rest (on a character boundary) *)
+Theorem C08_display_suffix : forall a b, drop_bytes (a ++ b) (blen a) = Some b.
+Proof. exact drop_bytes_app. Qed.
+Print Assumptions C08_display_suffix.
